@@ -14,21 +14,24 @@ import sympy
 NAME_POOL = ["zeta", "alpha", "Beta", "x9", "x10", "mass", "b", "a_1", "Z", "k2", "velocity", "q"]
 
 
-def names(rng, n, prefix):
-    pool = [f"{prefix}{p}" for p in NAME_POOL]
+CASE_POOL = ["v", "V", "a", "A", "x_1", "X_1", "zeta", "Zeta", "b", "B", "k2", "K2"]  # names differing only in capitalisation (C15)
+
+
+def names(rng, n, prefix, pool=None):
+    pool = [f"{prefix}{p}" for p in (pool or NAME_POOL)]
     rng.shuffle(pool)
     return pool[:n]
 
 
 class Scenario:
-    def __init__(self, n, c, k, sensors, seed=0, transcendental=False):
+    def __init__(self, n, c, k, sensors, seed=0, transcendental=False, pool=None):
         rng = random.Random(seed * 7919 + n * 131 + c * 17 + k * 5 + sum(sensors))
         self.rng = rng
         self.n, self.c, self.k, self.sensors = n, c, k, list(sensors)
         self.dt = sympy.Symbol("dt")
-        self.state = [sympy.Symbol(s) for s in names(rng, n, "s_")]
-        self.calibration = [sympy.Symbol(s) for s in names(rng, c, "c_")]
-        self.control = [sympy.Symbol(s) for s in names(rng, k, "u_")]
+        self.state = [sympy.Symbol(s) for s in names(rng, n, "s_", pool)]
+        self.calibration = [sympy.Symbol(s) for s in names(rng, c, "c_", pool)]
+        self.control = [sympy.Symbol(s) for s in names(rng, k, "u_", pool)]
         allsyms = self.state + self.calibration + self.control
         coef = lambda: sympy.Integer(rng.choice([2, 3, 5, 7, 11, 13])) / rng.choice([1, 2, 4])
         self.state_model = {}
@@ -47,7 +50,7 @@ class Scenario:
         self.sensor_names = names(rng, len(sensors), "sensor_")
         obs = self.state + self.calibration
         for sname, m in zip(self.sensor_names, sensors):
-            rnames = names(rng, m, "r_")
+            rnames = names(rng, m, "r_", pool)
             sm = {}
             for r in rnames:
                 e = sympy.Integer(0)
